@@ -23,8 +23,8 @@ impl CallWant {
 	pub fn invocation(&self) -> Option<Invocation> {
 		let m = handlers::REGISTERED.iter().find(|m| **m == self.method.as_str()).copied()?;
 		match m {
-			"sentinel" | "unsub" => None,
-			"sub" if self.http => None,
+			"sentinel" | "unsub" | "unsub_reject" => None,
+			"sub" | "sub_reject" if self.http => None,
 			_ => Some(Invocation { method: m, params: self.params_raw.clone() }),
 		}
 	}
@@ -63,7 +63,14 @@ impl CallWant {
 					r.result_raw.as_deref().is_some_and(|t| t.starts_with('"') || t.bytes().all(|b| b.is_ascii_digit()))
 				}
 			}
-			Some("unsub") => {
+			Some("sub_reject") => {
+				if self.http {
+					r.error_code == Some(classify::INTERNAL_ERROR)
+				} else {
+					r.error_code == Some(handlers::REJECT_CODE as i64)
+				}
+			}
+			Some("unsub" | "unsub_reject") => {
 				if self.http {
 					r.error_code == Some(classify::INTERNAL_ERROR)
 				} else {
